@@ -14,11 +14,14 @@ ASSUME = [
     "after a Read error the connection is not read again (deplex closes it): TLSConn does not resynchronise",
     "records above 16640 bytes cannot be produced by TLSConn.Write (it refuses them, allowed by the statement); "
     "they are injected as raw records, as a foreign peer could send them",
+    "a failed underlying Write reports how many bytes the transport took; after a failure with 0 bytes the connection "
+    "stays in use, after a partial one the caller closes it (switchboard does on any write error)",
     "gorilla/websocket v1.5.3 frame codec, sync.Mutex/sync.Cond and io.ReadFull are trusted",
 ]
 
-ALL_INVS = "TypeOK Whole OversizeErr InOrderWhole ErrIsFinal PerWriterOrder NoInterleave Complete"
-MC_BASE = {"H": 5, "BUF": 3, "LENS": "{0,1,2,3,4}", "NW": 2, "MAXREC": 3, "WMODE": "atomic", "RMODE": "full", "INVS": ALL_INVS}
+ALL_INVS = "TypeOK Whole OversizeErr InOrderWhole ErrIsFinal PerWriterOrder NoInterleave Complete NoGhost NoTorn Fits"
+MC_BASE = {"H": 5, "BUF": 3, "LENS": "{0,1,2,3,4}", "NW": 2, "MAXREC": 3, "WMODE": "atomic", "RMODE": "full", "INVS": ALL_INVS,
+           "MAXFAIL": 0, "FMTMAX": 99, "WLIMIT": 99}
 
 
 # several small TLC runs go on at once: keep each JVM's GC thread pool small
@@ -34,7 +37,7 @@ def mc(ctx, tag, workers, **kw):
 
 
 def gen(ctx, tag, workers, simulate=None, depth=None, **kw):
-    sub = {"H": 2, "BUF": 2, "LENS": "{0,1,2,3}", "NW": 1, "MAXREC": 2}
+    sub = {"H": 2, "BUF": 2, "LENS": "{0,1,2,3}", "NW": 1, "MAXREC": 2, "MAXFAIL": 0, "FMTMAX": 99, "WLIMIT": 99}
     sub.update(kw)
     return lib.run_tlc(ctx, "RecordLayerGen", "RecordLayerGen.cfg", sub, tag="gen_" + tag,
                        workers=1 if simulate else workers, simulate=simulate, depth=depth, timeout=1500, env=JVM)
@@ -55,7 +58,7 @@ def split_trace(lines, parts):
 
 def run(ctx):
     q = ctx.quick()
-    pool = ThreadPoolExecutor(max_workers=6 if q else 8)
+    pool = ThreadPoolExecutor(max_workers=8)
     wk = max(2, lib.NCPU // 4)
 
     # 1. behaviours (submitted first: the replay waits for them): every maximal path of RecordLayerGen for small constants (every chunking x every
@@ -66,8 +69,12 @@ def run(ctx):
         ("h5", dict(H=5, BUF=1, LENS="{0,1,2}", MAXREC=2)),
     ]
     if q:
-        gens.append(("r3", dict(H=2, BUF=1, LENS="{0,1,2}", MAXREC=3)))
+        # 3 records, at most one failing Write (WriteFail: the transport times the Write out after 0 or more bytes);
+        # MaxFail = 1 includes every failure-free behaviour of the same constants
+        gens.append(("f3", dict(H=2, BUF=2, LENS="{1,3}", MAXREC=3, MAXFAIL=1)))
     else:
+        gens.append(("f3", dict(H=2, BUF=2, LENS="{0,1,3}", MAXREC=3, MAXFAIL=1)))
+        gens.append(("f5", dict(H=5, BUF=1, LENS="{1,2}", MAXREC=2, MAXFAIL=1)))
         gens.append(("w2", dict(H=2, BUF=2, LENS="{0,1,3}", MAXREC=2, NW=2)))
         gens.append(("r3", dict(H=2, BUF=2, LENS="{0,1,2,3}", MAXREC=3)))
         gens.append(("h5b", dict(H=5, BUF=2, LENS="{0,2,3}", MAXREC=2)))
@@ -92,6 +99,15 @@ def run(ctx):
         "single": (pool.submit(mc, ctx, "neg_single", 2, RMODE="single", NW=1, INVS="Whole"), "Whole"),
         "trunc": (pool.submit(mc, ctx, "neg_trunc", 2, RMODE="trunc", NW=1, INVS="OversizeErr"), "OversizeErr"),
     }
+    # failing / refused Writes: zero-byte failures leave the stream intact, a torn record ends it, Write accepts only
+    # what fits the length field (FmtMax = WLimit = 4 here, lengths up to 5 offered) ...
+    f_pos["faults"] = pool.submit(mc, ctx, "faults", wk, H=2, BUF=3, LENS="{0,1,3,4,5}", NW=1 if q else 2, MAXREC=3,
+                                  MAXFAIL=1 if q else 2, FMTMAX=4, WLIMIT=4)
+    # ... and the deviation candidates: failed record left in the pooled write buffer; size guard one above the format
+    f_neg["staleBuf"] = (pool.submit(mc, ctx, "neg_staleBuf", 2, WMODE="staleBuf", H=5, LENS="{0,2}", NW=1, MAXFAIL=1,
+                                     INVS="NoGhost"), "NoGhost")
+    f_neg["limit"] = (pool.submit(mc, ctx, "neg_limit", 2, H=2, BUF=5, LENS="{0,3,4,5}", NW=1, MAXREC=2, FMTMAX=3, WLIMIT=4,
+                                  INVS="Whole"), "Whole")
     if not q:
         f_neg["split_reader"] = (pool.submit(mc, ctx, "neg_split_reader", 2, WMODE="split", INVS="Whole"), "Whole")
     # 3. while TLC works: concretisation sweeps and concurrent-writer recordings on the real code
@@ -185,7 +201,11 @@ def run(ctx):
                 "every pair of cuts (TLSConn; WebSocketConn both directions on a per-seed third of the exchanges), long exchanges "
                 "{16384,16401,16640,buf-1,buf,buf+1} x {coalesced, 1-byte drip, seeded segment sizes, boundary-hugging cuts, seeded "
                 "multi-cuts}; non-trivial = a cut falls inside a record. conc: k in {2,8,32} writers x {seg conn, loopback TCP, "
-                "WebSocket c2s/s2c} x {fitting, oversize} buffers + parked-writer schedules; distinct = distinct case signature"
+                "WebSocket c2s/s2c} x {fitting, oversize} buffers + parked-writer schedules. fault: every sequence of <=3 (thorough 4) "
+                "Writes over {ok 5, ok 300, timed-out 7, timed-out 1000} with at least one time-out, each also followed by a torn "
+                "record, over the segmenting conn (recorded, TLC-validated) and net.Pipe (SetWriteDeadline). boundary: Write lengths "
+                "2^k-1, 2^k, 2^k+1 (k<=17), 16639..16641, 65534..65537, 70000, 131072, 2^18 each followed by a sentinel record x 3 "
+                "segmentations; accepted => delivered whole. distinct = distinct case signature"
                 % (2 if q else 4),
         "samples": rep["samples"] + live["samples"],
         "traces_validated_against_impl": len(behaviours) + traces_ok,
@@ -194,7 +214,7 @@ def run(ctx):
         "concurrent_runs_recorded": int(live["stats"].get("conc_runs", 0)),
         "negative_configs_refuted": sorted(f_neg),
         "exhaustive": True,
-        "checker_cmd": "tlc RecordLayer.tla (atomic, splitLocked, split x1 writer; negative: split, single, trunc) / "
+        "checker_cmd": "tlc RecordLayer.tla (atomic, splitLocked, faults, split x1 writer; negative: split, single, trunc, staleBuf, limit) / "
                        "RecordLayerGen.tla / RecordLayerTrace.tla + go test -run 'TestVerifC05(Live|Replay)' ./internal/common/",
         "harness_stats": {"replay": rep["stats"], "live": live["stats"]},
     }
@@ -204,7 +224,8 @@ def run(ctx):
 def replay(ctx, path):
     import json
     kind = (json.load(open(path)).get("replay") or {}).get("kind")
-    test = {"behaviour": "TestVerifC05Replay", "sweep": "TestVerifC05Sweep", "conc": "TestVerifC05Conc"}.get(kind)
+    test = {"behaviour": "TestVerifC05Replay", "sweep": "TestVerifC05Sweep", "conc": "TestVerifC05Conc",
+            "fault": "TestVerifC05Fault", "boundary": "TestVerifC05Fault"}.get(kind)
     if test is None:
         print("replay file of kind %r: a rejected trace is re-examined by re-running the check with the recorded seed "
               "(VERIF_SEED=<seed> python3 tools/check.py C05 --tier <tier>); the tail of the trace is in the file" % kind)
